@@ -84,20 +84,57 @@ def rule_c(ctx):
     m = ctx.model
     f = m.func(MOD, "Geometry.integrate")
     ctx.instance(R)
-    prods = [n for n in ast.walk(f.node) if isinstance(n, ast.Assign) and isinstance(n.value, ast.Call) and norm(n.value.func) in ("np.multiply",)]
-    prods += [n for n in ast.walk(f.node) if isinstance(n, ast.Assign) and isinstance(n.value, ast.BinOp) and isinstance(n.value.op, ast.Mult)
-              and "cached_voxel_volume" in norm(n.value) and isinstance(n.targets[0], ast.Name)]
+    prods = [n for n in ast.walk(f.node) if isinstance(n, ast.Assign) and isinstance(n.value, ast.Call) and norm(n.value.func) in ("np.multiply",) and len(n.value.args) == 2]
+    prods += [n for n in ast.walk(f.node) if isinstance(n, ast.Assign) and isinstance(n.value, ast.BinOp) and isinstance(n.value.op, ast.Mult) and isinstance(n.targets[0], ast.Name)]
     data = f.params[1]
+    local_defs = {}
+    for s_ in ast.walk(f.node):
+        if isinstance(s_, ast.Assign) and len(s_.targets) == 1 and isinstance(s_.targets[0], ast.Name):
+            local_defs.setdefault(s_.targets[0].id, []).append(s_.value)
+
+    def is_volume(e, depth=0):
+        """the (possibly rescaled) cached voxel volume: the attribute itself, a local bound to it, or the result of a method of self
+        whose closure maintains that attribute"""
+        if "cached_voxel_volume" in norm(e):
+            return True
+        if isinstance(e, ast.Name) and e.id in local_defs and depth < 3:
+            return all(is_volume(v, depth + 1) for v in local_defs[e.id])
+        if isinstance(e, ast.Call) and norm(e.func).startswith("self."):
+            g = m.resolve_call(e, f)
+            return g is not None and hasattr(g, "node") and any("cached_voxel_volume" in norm(x) for x in ast.walk(g.node) if isinstance(x, ast.Attribute))
+        return False
+
+    def data_kinds(e, depth=0):
+        """which forms of the input the operand can be: subset of {data, data.img}; None if anything else"""
+        t = norm(e)
+        if t == data:
+            return {data}
+        if t == f"{data}.img":
+            return {f"{data}.img"}
+        if isinstance(e, ast.IfExp):
+            a_, b_ = data_kinds(e.body, depth), data_kinds(e.orelse, depth)
+            return None if a_ is None or b_ is None else a_ | b_
+        if isinstance(e, ast.Name) and e.id in local_defs and depth < 3:
+            out = set()
+            for v in local_defs[e.id]:
+                k_ = data_kinds(v, depth + 1)
+                if k_ is None:
+                    return None
+                out |= k_
+            return out
+        return None
     ops = []
     tgt = set()
+    kinds = set()
     for p in prods:
         args = p.value.args if isinstance(p.value, ast.Call) else [p.value.left, p.value.right]
-        if any(norm(a) == "self.cached_voxel_volume" for a in args):
-            ops.append(sorted(norm(a) for a in args if norm(a) != "self.cached_voxel_volume"))
+        vol = [a for a in args if is_volume(a)]
+        rest = [a for a in args if not is_volume(a)]
+        if len(vol) == 1 and len(rest) == 1 and data_kinds(rest[0]) is not None:
+            ops.append(norm(rest[0]))
+            kinds |= data_kinds(rest[0])
             tgt.add(norm(p.targets[0]))
-    fetched = f"{data} if isinstance({data}, np.ndarray) else {data}.img"
-    ops_x = sorted([norm(expand(f.node, ast.parse(a, mode="eval").body)) for a in o] for o in ops)
-    ctx.ob(R, f.qname, "both input kinds multiply the cached voxel volume with the data", (sorted(ops) == sorted([[data], [f"{data}.img"]]) or ops_x == [[fetched]]) and len(tgt) == 1,
+    ctx.ob(R, f.qname, "both input kinds multiply the cached voxel volume with the data", kinds == {data, f"{data}.img"} and len(tgt) == 1,
            f"products {ops} into {tgt}", f.node)
     loops = [l for l in ast.walk(f.node) if isinstance(l, ast.For) and norm(l.iter) == "range(self.space_dim)"]
     ok = False
